@@ -60,6 +60,13 @@ func reorder(funcs []*provider, initF *provider) ([]*provider, error) {
 	var someReorder bool
 	for i, fm := range funcs {
 		debugln("\tSTART", i, fm, fm.cannotInclude, fm.include)
+		if fm.reorder && (fm.group == literalGroup || fm.group == staticGroup) {
+			// Values and static providers are placed in front of the invoke function
+			// when the chain is put together.  Nothing ever releases them for
+			// reordering (they would be appended behind the final function and shift
+			// the invoke function): they keep their place.  funcs are per-Bind copies.
+			fm.reorder = false
+		}
 		if fm.reorder {
 			someReorder = true
 		}
